@@ -102,6 +102,13 @@ def call(fn, spell, ops, p, kw):
         if spell == "np":
             return np.sum(ops[0], axis=axis, keepdims=bool(p.get("keepdims", False)))
         return mg.sum(ops[0], axis=axis, keepdims=bool(p.get("keepdims", False)), **kw)
+    if fn == "conv_nd":
+        from mygrad.nnet.layers import conv_nd
+        fix = lambda v: tuple(v) if isinstance(v, list) else v
+        return conv_nd(ops[0], ops[1], stride=fix(p.get("stride", 1)), padding=fix(p.get("padding", 0)), dilation=fix(p.get("dilation", 1)), **kw)
+    if fn == "max_pool":
+        from mygrad.nnet.layers import max_pool
+        return max_pool(ops[0], tuple(p["pool"]), tuple(p["stride"]) if isinstance(p.get("stride", 1), list) else p.get("stride", 1), **kw)
     if fn == "cumsum":
         return mg.cumsum(ops[0], axis=p["axis"], **kw)
     if fn in ("max", "min"):
